@@ -1,6 +1,124 @@
 import SigpyVerif.Model.Py
 import SigpyVerif.Model.Proto
+import SigpyVerif.Model.C15
 namespace SigpyVerif.Drv.C15
+open SigpyVerif SigpyVerif.Proto SigpyVerif.C15
+
+/-- (initial counter, selfIncr, done(iter, max_iter, resid, tol, flag)) of a class, from `Gen.AlgDone` -/
+def classInfo (cls : String) : Option (Int × Int × (Int → Int → Rat → Rat → Bool → Bool)) :=
+  match cls with
+  | "Alg" => some (Gen.initIterAlg, Gen.selfIncrAlg, fun i m _ _ _ => Gen.doneAlg i m)
+  | "PowerMethod" => some (Gen.initIterPowerMethod, Gen.selfIncrPowerMethod, fun i m _ _ _ => Gen.donePowerMethod i m)
+  | "GradientMethod" => some (Gen.initIterGradientMethod, Gen.selfIncrGradientMethod,
+      fun i m r t _ => Gen.doneGradientMethod i m r t)
+  | "ConjugateGradient" => some (Gen.initIterConjugateGradient, Gen.selfIncrConjugateGradient,
+      fun i m r t f => Gen.doneConjugateGradient i m f r t)
+  | "PrimalDualHybridGradient" => some (Gen.initIterPrimalDualHybridGradient, Gen.selfIncrPrimalDualHybridGradient,
+      fun i m r t _ => Gen.donePrimalDualHybridGradient i m r t)
+  | "AltMin" => some (Gen.initIterAltMin, Gen.selfIncrAltMin, fun i m _ _ _ => Gen.doneAltMin i m)
+  | "AugmentedLagrangianMethod" => some (Gen.initIterAugmentedLagrangianMethod, Gen.selfIncrAugmentedLagrangianMethod,
+      fun i m _ _ _ => Gen.doneAugmentedLagrangianMethod i m)
+  | "ADMM" => some (Gen.initIterADMM, Gen.selfIncrADMM, fun i m _ _ _ => Gen.doneADMM i m)
+  | "SDMM" => some (Gen.initIterSDMM, Gen.selfIncrSDMM, fun i m _ _ f => Gen.doneSDMM i m f)
+  | "NewtonsMethod" => some (Gen.initIterNewtonsMethod, Gen.selfIncrNewtonsMethod,
+      fun i m r t _ => Gen.doneNewtonsMethod i m r t)
+  | "GerchbergSaxton" => some (Gen.initIterGerchbergSaxton, Gen.selfIncrGerchbergSaxton,
+      fun i m r t _ => Gen.doneGerchbergSaxton i m r t)
+  | _ => none
+
+/-- `resid` token: a rational, or `inf` (np.inf: larger than every tolerance) -/
+def parseResid (s : String) (tol : Rat) : Option Rat :=
+  if s == "inf" then some (ratAbs tol + 1) else parseRat? s
+
+/-- events `u` | `d:<resid>:<tol>:<flag>`; replies the counter after each `u`, the verdict of each `d` -/
+def trace (cls : String) (maxIter : Int) (evs : List String) : Option (List String) := do
+  let (i0, inc, dn) ← classInfo cls
+  let rec go (evs : List String) (iter : Int) (acc : List String) : Option (List String) :=
+    match evs with
+    | [] => some acc.reverse
+    | e :: rest =>
+      match e.splitOn ":" with
+      | ["u"] => let it := ctrUpdate inc iter; go rest it (s!"i{it}" :: acc)
+      | ["d", r, t, f] => do
+          let tol ← parseRat? t
+          let resid ← parseResid r tol
+          let flag ← parseInt? f
+          go rest iter (s!"d{fmtBool (dn iter maxIter resid tol (flag != 0))}" :: acc)
+      | _ => none
+  go evs i0 []
+
+/-- the loop of `App.run` on the counter machine; the class-specific fields after `j` updates are
+    `resids[j]`, `flags[j]` (taken from the observed run) -/
+def appRun (cls : String) (maxIter : Int) (tol : Rat) (resids : List String) (flags : List Int) (fuel : Nat) :
+    Option String := do
+  let (i0, inc, dn) ← classInfo cls
+  let rs ← resids.mapM (parseResid · tol)
+  let done := fun (s : Int × Nat) => dn s.1 maxIter (rs.getD s.2 (rs.getLastD 0)) tol ((flags.getD s.2 (flags.getLastD 0)) != 0)
+  let upd := fun (s : Int × Nat) => (ctrUpdate inc s.1, s.2 + Gen.appUpdatesPerPass)
+  let (s, n, byDone) := runLoop done upd fuel (i0, 0) 0
+  some s!"ok updates={s.2} passes={n} iter={s.1} done={fmtBool byDone}"
+
+def getRV (toks : List String) (k : String) : Option RVec := ((kv toks k).bind parseRatList?).map List.toArray
+def getR (toks : List String) (k : String) : Option Rat := (kv toks k).bind parseRat?
+
+/-- `prox=none | soft:<lam> | box:<lo>:<hi>` as `alpha ↦ v ↦ prox(alpha, v)` -/
+def parseProx (s : String) : Option (Option (Rat → RVec → RVec)) :=
+  match s.splitOn ":" with
+  | ["none"] => some none
+  | ["soft", l] => (parseRat? l).map fun lam => some (fun a v => softThresh (lam * a) v)
+  | ["box", lo, hi] => do let l ← parseRat? lo; let h ← parseRat? hi; some (some (fun _ v => clip l h v))
+  | _ => none
+
+def fmtV (v : RVec) : String := fmtRatList v.toList
+
+/-- one `PrimalDualHybridGradient.update()` for `min_x ½‖A x - y‖² + g(x)` as set up by
+    `LinearLeastSquares`: `proxfc(σ, u) = (u - σ y) / (1 + σ)` -/
+def handlePdhg (toks : List String) : String :=
+  match (kv toks "m").bind parseInt?, (kv toks "n").bind parseInt?, getRV toks "A", getRV toks "y",
+        getR toks "tau", getR toks "sigma", getR toks "theta", getRV toks "x", getRV toks "u", getRV toks "xext",
+        (kv toks "prox").bind parseProx with
+  | some m, some n, some A, some y, some tau, some sigma, some theta, some x, some u, some xe, some prox =>
+    let m := m.toNat; let n := n.toNat
+    if A.size ≠ m * n ∨ y.size ≠ m ∨ x.size ≠ n ∨ u.size ≠ m ∨ xe.size ≠ n then "err size" else
+    if tau == 0 ∨ sigma == 0 then "err zerodiv" else
+    let proxfc := fun (s : Rat) (v : RVec) => rzip (fun vi yi => (vi - s * yi) / (1 + s)) v y
+    let proxg := match prox with | none => (fun _ v => v) | some p => p
+    let s' := pdhgUpdate ratV (rmatVec m n A) (rmatTVec m n A) proxfc proxg tau sigma theta
+      { x := x, u := u, xext := xe, resid2 := 0 }
+    s!"ok x={fmtV s'.x} u={fmtV s'.u} xext={fmtV s'.xext} resid2={fmtRat s'.resid2}"
+  | _, _, _, _, _, _, _, _, _, _, _ => "err bad-op"
+
+/-- one `GradientMethod.update()` for `gradf(x) = Q x - c` -/
+def handleGm (toks : List String) : String :=
+  match (kv toks "n").bind parseInt?, getRV toks "Q", getRV toks "c", getR toks "alpha",
+        (kv toks "accel").bind parseInt?, (kv toks "prox").bind parseProx, getRV toks "x", getRV toks "z",
+        getR toks "told", getR toks "tnew" with
+  | some n, some Q, some c, some alpha, some acc, some prox, some x, some z, some told, some tnew =>
+    let n := n.toNat
+    if Q.size ≠ n * n ∨ c.size ≠ n ∨ x.size ≠ n ∨ z.size ≠ n then "err size" else
+    if alpha == 0 ∨ (acc != 0 ∧ tnew == 0) then "err zerodiv" else
+    let gradf := fun v => rzip (· - ·) (rmatVec n n Q v) c
+    let s' := gmUpdate ratV (fun _ => tnew) gradf prox alpha (acc != 0) { x := x, z := z, t := told, resid2 := 0 }
+    s!"ok x={fmtV s'.x} z={fmtV s'.z} resid2={fmtRat s'.resid2}"
+  | _, _, _, _, _, _, _, _, _, _ => "err bad-op"
+
 /-- protocol handler for property C15 (tokens after the property id). -/
-def handle (_toks : List String) : String := "err bad-op"
+def handle (toks : List String) : String :=
+  match toks.head? with
+  | some "trace" =>
+    match kv toks "cls", (kv toks "maxiter").bind parseInt?, kv toks "ev" with
+    | some cls, some m, some ev =>
+      match trace cls m (if ev == "-" then [] else ev.splitOn ",") with
+      | some r => "ok " ++ (if r.isEmpty then "-" else ",".intercalate r)
+      | none => "err bad-op"
+    | _, _, _ => "err bad-op"
+  | some "apprun" =>
+    match kv toks "cls", (kv toks "maxiter").bind parseInt?, getR toks "tol", kv toks "resids",
+          (kv toks "flags").bind parseIntList?, (kv toks "fuel").bind parseInt? with
+    | some cls, some m, some tol, some rs, some fl, some fuel =>
+      (appRun cls m tol (rs.splitOn ",") fl fuel.toNat).getD "err bad-op"
+    | _, _, _, _, _, _ => "err bad-op"
+  | some "pdhg" => handlePdhg toks
+  | some "gm" => handleGm toks
+  | _ => "err bad-op"
 end SigpyVerif.Drv.C15
